@@ -105,7 +105,7 @@ class Prov:
     def place(self, pl, depth=0):
         pk = place_key(pl)
         # exact partial definition?
-        if pk[1] and pk in self.pdefs and len(self.pdefs[pk]) == 1 and not self.defs.get(pk[0]):
+        if pk[1] and "deref" not in pk[1] and pk in self.pdefs and len(self.pdefs[pk]) == 1 and not self.defs.get(pk[0]):
             return self._def_term(self.pdefs[pk][0], depth + 1)
         t = self.local(pl["l"], depth)
         for e in pl["p"]:
